@@ -9,4 +9,4 @@ for id in "${ids[@]}"; do
   prop=$(python3 -c "import json;print(json.load(open('seeded/$id/meta.json'))['property'])")
   args+=("seeded/$id/patch.diff $prop $id")
 done
-printf '%s\n' "${args[@]}" | xargs -P 2 -I{} bash -c 'set -- {}; out=$(python3 tools/run_mutant.py $1 $2 2>&1); cls=$(echo "$out" | grep "class:" | head -3 | sed "s/ *class: //" | tr "\n" ";"); rc=$(echo "$out" | grep -c "^== .* exit 1"); echo "$3 $2 caught=$([ $rc -ge 1 ] && echo YES || echo NO) $cls"'
+printf '%s\n' "${args[@]}" | xargs -P 2 -I{} bash -c 'set -- {}; out=$(python3 tools/run_mutant.py $1 $2 2>&1); cls=$(echo "$out" | grep "class:" | head -3 | sed "s/ *class: //" | tr "\n" ";"); rc=$(echo "$out" | grep -o "^== .* exit [0-9]*" | grep -o "[0-9]*$" | head -1); echo "$3 $2 $([ "$rc" = 1 ] && echo caught=YES || ([ "$rc" = 0 ] && echo caught=NO || echo HARNESS-ERROR exit=$rc)) $cls"'
